@@ -6,7 +6,7 @@ man = json.load(open("/verif/MANIFEST.json"))
 for seed in sys.argv[1:]:
     for c in man["checks"]:
         pid = c["property_id"]
-        env = dict(os.environ, VERIF_SEED=seed)
+        env = dict(os.environ, VERIF_SEED=seed, VERIF_NO_EVIDENCE="1")
         t = time.time()
         p = subprocess.run(c["quick_cmd"] + " --no-selftest", shell=True, cwd="/verif", capture_output=True, text=True, env=env)
         bad = [ln for ln in p.stdout.splitlines() if ln.startswith(("VIOLATION", "HARNESS", "  clause="))]
